@@ -136,6 +136,11 @@ def run(F, R):
         guard(R, 'E20', 'exposure', lambda: q4b_exposure_table(F, RuleProxy(R, {'Q4': 'E20'}), M, roles))
     e16_chain_link(F, R, M)
     e17_helper_waits(F, R, M, roles)
+    # E21: the owning queue keeps every one of its buffers outstanding: whatever the handler returns, the popped buffer is re-posted
+    # (its descriptor is held again) before poll returns (C19.Q1)
+    if M.owning_adt:
+        from .C19 import poll_rule
+        poll_rule(F, R, 'E21')
 
 
 def e8_helper_token(F, R, M, roles, rule='E8'):
@@ -791,6 +796,21 @@ def e5_counters(F, R, M, tfield, lfield, rule='E5'):
                 if any(raw_ctr(a) for a in args):
                     nops += 1
                     R.held(rule, '%s:%s' % (b['id'], fn.rsplit('::', 1)[1]), site(sg, n), 'wrapping arithmetic on index')
+        # what is stored back into a free-running index is the full 16-bit wrapping sum - a masked or otherwise reduced value makes the
+        # index stop being free-running (the device's copy and the driver's diverge after the reduced range wraps)
+        for n in sg.nodes:
+            if n.kind != 'assign' or not n.d['place']['p']:
+                continue
+            pl = n.d['place']['p'][-1]
+            if not (isinstance(pl, dict) and pl.get('adt') == M.queue_adt and pl.get('n') in (tfield, lfield)):
+                continue
+            v = strip_conv(S.rvalue(n.id, n.d['rv']))
+            if fold_const(v) is not None:
+                continue
+            nops += 1
+            ok = v[0] == 'call' and v[2].endswith('::wrapping_add') and any(raw_ctr(a) for a in v[3])
+            R.check(ok, rule, '%s:store:%s' % (b['id'], pl.get('n')), site(sg, n), 'the index is stored back as a full-width wrapping sum',
+                    'a free-running ring index is stored back as %s, not as wrapping_add(index, n): it no longer runs over all 16 bits' % fmt(v)[:120])
     R.count('counter_ops', nops)
 
 
